@@ -72,3 +72,111 @@ Definition fconv_m (from to_ : dty) : Z -> out b64 :=
 Definition fcast_spec (n1 d1 n2 d2 c : Z) : b64 := ddiv (d_of_Z (c * n1 * d2)) (d_of_Z (d1 * n2)).
 Definition two53 : Z := 9007199254740992.
 Definition fspec_ok (n1 d1 n2 d2 c : Z) : bool := (Z.abs (c * n1 * d2) <? two53) && (d1 * n2 <? two53).
+
+(** * floating-point SOURCE representation: duration<double, P1> (tested against the code and
+   std::chrono by the correspondence run; the theorems of Properties_float.v cover the integer
+   source only).  Every arithmetic step is the correctly rounded binary64 operation. *)
+From Flocq Require Binary.
+
+(* bit_cast<double>(bits) (NaN payloads dropped) *)
+Definition dec64 (z : Z) : b64 :=
+  Binary.B2BSN 53 1024 (Bits.binary_float_of_bits 52 11 eq_refl eq_refl eq_refl z).
+
+Definition dadd (x y : b64) : b64 := @Bplus 53 1024 p64 pe64 mode_NE x y.
+Definition dsub (x y : b64) : b64 := @Bminus 53 1024 p64 pe64 mode_NE x y.
+Definition dlt (x y : b64) : bool := Bltb x y.
+Definition deq (x y : b64) : bool := Beqb x y.
+
+(* static_cast<int64_t>(x): truncation toward zero; undefined unless the truncated value fits *)
+Definition d_to_i64 (x : b64) : out Z :=
+  match x with
+  | B754_nan | B754_infinity _ => Ub SignedOverflow
+  | _ => let z := Btrunc x in if in64 z then Val z else Ub SignedOverflow
+  end.
+
+(* the value part of duration_cast with CR = double on a double count: the four specialisations *)
+Definition dscale (cn cd : Z) (x : b64) : b64 :=
+  if cn =? 1 then (if cd =? 1 then x else ddiv x (d_of_Z cd))
+  else if cd =? 1 then dmul x (d_of_Z cn)
+  else ddiv (dmul x (d_of_Z cn)) (d_of_Z cd).
+
+Definition same_period (a b : dty) : bool := (pn a =? pn b) && (pd a =? pd b).
+
+(* duration_cast<duration<double, P2>>(duration<double, P1>{x}) *)
+Definition dd_cast_m (from to_ : dty) : b64 -> out b64 :=
+  let cf := ratio_divide_m (pn from, pd from) (pn to_, pd to_) in
+  fun x => do cf' <- cf; Val (dscale (fst cf') (snd cf') x).
+
+(* duration_cast<duration<int64_t, P2>>(duration<double, P1>{x}) *)
+Definition di_cast_m (from to_ : dty) : b64 -> out Z :=
+  let cf := ratio_divide_m (pn from, pd from) (pn to_, pd to_) in
+  fun x => do cf' <- cf; d_to_i64 (dscale (fst cf') (snd cf') x).
+
+(* converting constructor into duration<double, Pc> from a double count (identity for the same
+   type) and from an int64 count: count * num / den in double, no specialisation *)
+Definition dconv_d (from to_ : dty) : b64 -> out b64 :=
+  let same := same_period from to_ in
+  let ok := period_quotient_representable_m from to_ in
+  let cf := ratio_divide_m (pn from, pd from) (pn to_, pd to_) in
+  fun x =>
+    if same then Val x
+    else
+      do ok' <- ok;
+      if negb ok' then IllFormed
+      else do cf' <- cf; Val (ddiv (dmul x (d_of_Z (fst cf'))) (d_of_Z (snd cf'))).
+Definition dconv_i := fconv_m.
+
+(* the common type of two durations (periods only; the representation is double) *)
+Definition dcommon (a b : dty) : out dty := common_m a b.
+
+(* floor / ceil / round <duration<int64_t, P2>> (duration<double, P1>{x}) *)
+Definition di_floor_m (from to_ : dty) : b64 -> out Z :=
+  let cast := di_cast_m from to_ in
+  let k := (do t <- dcommon to_ from; Val (dconv_d from t, dconv_i to_ t)) in
+  fun x =>
+    do t <- cast x;
+    do '(cvd, cvi) <- k;
+    do xd <- cvd x;
+    do td <- cvi t;
+    if dlt xd td then ck64 (t - 1) else Val t.        (* t > d  is  d < t *)
+
+Definition di_ceil_m (from to_ : dty) : b64 -> out Z :=
+  let cast := di_cast_m from to_ in
+  let k := (do t <- dcommon to_ from; Val (dconv_d from t, dconv_i to_ t)) in
+  fun x =>
+    do t <- cast x;
+    do '(cvd, cvi) <- k;
+    do xd <- cvd x;
+    do td <- cvi t;
+    if dlt td xd then ck64 (t + 1) else Val t.        (* t < d *)
+
+Definition di_round_m (from to_ : dty) : b64 -> out Z :=
+  let fl := di_floor_m from to_ in
+  let k := (do t <- dcommon from to_; Val (dconv_d from t, dconv_i to_ t)) in
+  fun x =>
+    do low <- fl x;
+    do high <- ck64 (low + 1);
+    do '(cvd, cvi) <- k;
+    do xd <- cvd x;
+    do lowd <- cvi low;
+    do highd <- cvi high;
+    let lowDiff := dsub xd lowd in
+    let highDiff := dsub highd xd in
+    if dlt lowDiff highDiff then Val low
+    else if dlt highDiff lowDiff then Val high
+    else if Z.odd low then Val high else Val low.
+
+(* + - / and the comparisons of duration<double, P1>{x} with duration<double, P2>{y} *)
+Definition dd_common_m (a b : dty) : b64 -> b64 -> out (b64 * b64) :=
+  let k := (do t <- dcommon a b; Val (dconv_d a t, dconv_d b t)) in
+  fun x y => do '(ca, cb) <- k; do xa <- ca x; do yb <- cb y; Val (xa, yb).
+Definition dd_plus_m (a b : dty) : b64 -> b64 -> out b64 :=
+  let tc := dd_common_m a b in fun x y => do '(u, v) <- tc x y; Val (dadd u v).
+Definition dd_minus_m (a b : dty) : b64 -> b64 -> out b64 :=
+  let tc := dd_common_m a b in fun x y => do '(u, v) <- tc x y; Val (dsub u v).
+Definition dd_div_m (a b : dty) : b64 -> b64 -> out b64 :=
+  let tc := dd_common_m a b in fun x y => do '(u, v) <- tc x y; Val (ddiv u v).
+Definition dd_lt_m (a b : dty) : b64 -> b64 -> out bool :=
+  let tc := dd_common_m a b in fun x y => do '(u, v) <- tc x y; Val (dlt u v).
+Definition dd_eq_m (a b : dty) : b64 -> b64 -> out bool :=
+  let tc := dd_common_m a b in fun x y => do '(u, v) <- tc x y; Val (deq u v).
